@@ -307,7 +307,12 @@ def apply(items, order):
   for idx in order:
     kind, key, v, how = items[idx]
     if kind == 'import':
-      gin.parse_config(v)
+      if how == 'parse-skip':
+        with warnings.catch_warnings():
+          warnings.simplefilter('ignore')
+          gin.parse_config(v, skip_unknown=True)
+      else:
+        gin.parse_config(v)
       continue
     if kind == 'macro':
       if how == 'parse' and textual(v):
@@ -555,6 +560,11 @@ def check_case(case):
   items = []
   for imp in case['imports']:
     items.append(('import', None, IMPORTS[imp % len(IMPORTS)], 'parse'))
+  if case.get('missing_import'):
+    # an import that is skipped (skip_unknown) is not part of the configuration
+    items.append(('import', None, ['import c06_no_such_module', 'from c06_no_such_pkg import m as mm'][
+        case['missing_import'] % 2], 'parse-skip'))
+    labels.add('skipped-import-of-missing-module')
   for name, v, how in case['macros']:
     items.append(('macro', name, v, how))
   for scope, sel, param, v, how in case['bindings']:
@@ -840,6 +850,7 @@ def _static_case(draw):
   indent = draw(st.integers(0, 8))
   width = draw(st.integers(max(5, indent + 1), 120) | st.sampled_from([20, 40, 80]))
   width = max(width, indent + 1)
-  return {'bindings': bindings, 'macros': macros, 'late_registration': draw(st.integers(0, 2)) == 0,
+  return {'bindings': bindings, 'macros': macros, 'missing_import': draw(st.sampled_from([0, 0, 0, 1, 2])),
+          'late_registration': draw(st.integers(0, 2)) == 0,
           'imports': draw(st.lists(st.integers(0, len(IMPORTS) - 1), unique=True, max_size=3)),
           'perm': draw(st.integers(0, 10**6)), 'width': width, 'indent': indent}
